@@ -322,7 +322,13 @@ def main():
     chk.assumptions = ["data arrays are integer multiples of one 2x2 pattern, so array arithmetic is exact and every array maps to one integer",
                        "unknown resolution strings are not passed to _add_data (outside 'admissible storage resolution'; they leave "
                        "storage_resolution itself invalid)", "axes are set before use (xaxis/yaxis of length 2)"]
+    chk.assumptions.append("static tie: the storage functions of twod2.py are transcribed node by node (harness/translate_c19.py, fail-closed) into "
+                           "the Python-fragment semantics of Model/C19py.v and proved equal to Model/C19code.v, which Proofs/C19gen*.v prove to "
+                           "refine Model/C19.v for every history; trusted: the transcriber, the fragment semantics (value semantics of arrays, "
+                           "guarded by the transcriber's aliasing check), exception messages and array shapes are not modelled")
     chk.prove()
+    import translate
+    translate.static_tie(cm, chk, PID, cm.REPO)      # second, static tie: the model's refinement re-established for the current source
     if args.replay:
         rep = json.load(open(args.replay))
         cases = [rep["input"]] if isinstance(rep.get("input"), dict) and "ops" in rep["input"] else []
